@@ -19,6 +19,18 @@ CLAIMED = {
             "same libm as the library (log/exp), knots rounded to the 11 digits the build keeps; intervals next to the one non-monotone abscissa step "
             "(CS_Photo Z=96) excluded; the 1e-7 guard band above the last knot accepts both outcomes",
             "DESIGN.md 2/C02"),
+    "C03": ("generated API sweep: every exported function x exhaustive discrete classes x structured/seeded continuous, string and crystal arguments, each call with a fresh / absent / pre-set error slot, generic contract oracle",
+            "A universal call interpreter generated from the header prototypes executes ~350k (quick) calls under ASan+UBSan in both data "
+            "configurations; the oracle requires: no error => finite, non-NULL, strictly positive where physical; error => sentinel value, valid code, "
+            "printable message; identical result without a slot; pre-set slot untouched; no overwrite diagnostic on stderr.",
+            "argument classes come from C type + parameter name (unclassifiable = build failure of the check); NaN/Inf arguments outside the domain",
+            "DESIGN.md 2/C03"),
+    "C04": ("sanitizer-instrumented generated testing: API sweep with per-call heap balance + LeakSanitizer, rapidcheck call histories with an object pool, libFuzzer targets with in-target oracles",
+            "The C03 sweep runs with an exact per-call heap balance (confirmed by LeakSanitizer), rapidcheck generates histories over the allocating "
+            "APIs (objects pooled, scribbled, released in generated order, arrays grown, files read) ending in full release, and libFuzzer drives the "
+            "formula parser and the crystal file reader with semantic + heap + descriptor oracles; any ASan/UBSan/LSan report is a violation.",
+            "allocation-failure injection not done; libFuzzer campaigns are bounded by -runs; sanitizer runtimes trusted",
+            "DESIGN.md 2/C04"),
     "C05": ("structured enumeration (all Z, photo-table knots, edges, range ends, angle grids) + seeded draws; metamorphic/defining identities evaluated from public components",
             "Each of the ~40 aggregate / unit-variant entry points is compared at 1e-13 with its defining identity built from the public component "
             "functions and header constants, in both data configurations, and must fail exactly when a required part fails.",
